@@ -30,7 +30,7 @@ def _new_ai(eng, st, args, kw):
     a = args[0]
     p = args[1] if len(args) > 1 else kw.get("params")
     st.ghost["ai_built"] = st.ghost.get("ai_built", ()) + ((a, p, args[2] if len(args) > 2 else kw.get("agent"), args[3] if len(args) > 3 else kw.get("motion_paths")),)
-    yield st, AI.wrap(MKAI(a.z, p.z))
+    yield st, AI.wrap(MKAI(a.z, p.z if isinstance(p, SRef) else Params.fresh("other_params").z))
 
 
 def _tuple_contract(eng, st, args, kw):
